@@ -282,6 +282,32 @@ def drive(s, su, seed, scale, stats, notes, miri=False):
     look(s.cmd("g_random_sk", rng=rng), "random_sk")
     look(s.cmd("setup_new_with_key", rng=rng, sk=bytes(sz.nsk), out="kz"), "new_with_key zero key")
     look(s.cmd("setup_new_with_key", rng=rng, sk=b"\xff" * sz.nsk, ext=True, out="kz"), "new_with_key ff key ext")
+    # handle-style external keys (SecretKey::Len = 12 / 80, unrelated to the scalar length): build, encode, decode at all lengths
+    for hnd, kind in (("short", "setuphs"), ("long", "setuphl")):
+        r = look(s.cmd("setup_new_with_key", rng=rng, sk=c1["setup"][sz.nh:sz.nh + sz.nsk], hnd=hnd, out="kh"), "new_with_key handle-%s key" % hnd)
+        if r.ok:
+            hv = bytes.fromhex(r.ser)
+            for x in [hv, hv + b"\x00", c1["setup"], bytes(len(hv)), b"\xff" * len(hv)] + [hv[:L] for L in range(0, len(hv), 7)]:
+                look(s.de(kind, x, out="kh2"), "decode %s (%d bytes)" % (kind, len(x)))
+            look(s.cmd("sreg_start", setup="kh", req="ag.rq", cred=b"c"), "sreg_start handle-%s key" % hnd)
+            look(s.cmd("slogin_start", rng=rng, setup="kh", file="ag.file", req="al.cq", cred=b"c", out_state="kh.sl", out_msg="kh.cr"), "slogin_start handle-%s key" % hnd)
+    # ---------------------------------------------------------------- (e) caller-supplied KSF instances, incl. unusable configurations
+    if s.info.ksf == "argon2":
+        cfgs = [{"m": 8 * p_, "t": 1, "p": p_, "out": o_} for p_ in (1, 2) for o_ in (None, 4, 16, sz.nh - 1, sz.nh, sz.nh + 1, 64, 65, 128, 1024)]
+        cfgs += [{"m": 64, "t": 1, "p": 1, "alg": a_, "ver": v_, "out": o_} for a_ in ("i", "d") for v_ in (16, 19) for o_ in (None, 64)]
+    elif s.info.ksf == "hksf":
+        cfgs = [0, 1, 2, 7]
+    else:
+        cfgs = []
+    for ci, cfg in enumerate(cfgs):
+        look(s.cmd("ksf_new", id="kk", param=cfg), "ksf_new %s" % (cfg,))
+        look(s.cmd("creg_start", rng=rng, pw=b"pw-k", out_state="kk.cs", out_msg="kk.rq"), "creg_start")
+        look(s.cmd("sreg_start", setup="aS", req="kk.rq", cred=b"kk", out="kk.rr"), "sreg_start")
+        r = look(s.cmd("creg_finish", rng=rng, state="kk.cs", pw=b"pw-k", resp="kk.rr", ksf="kk", out="kk.up", params_via=["new", "literal"][ci % 2]),
+                 "creg_finish with KSF instance %s" % (cfg,))
+        look(s.cmd("clogin_finish", state="al.cl", pw=b"pw-one", resp="al.cr", ksf="kk", out="kk.cf", params_via=["literal", "new"][ci % 2]),
+             "clogin_finish with KSF instance %s" % (cfg,))
+        stats["ksf_instances"] = stats.get("ksf_instances", 0) + 1
 
 
 def compare_replies(native, other_path, flavour, viol, su, stats):
